@@ -1,0 +1,28 @@
+//go:build verif
+
+package config
+
+// Contracts for govc (see /verif/DESIGN.md). Compiled only with -tags verif.
+//
+// wellFormed is transcribed from the property statement (C38): templates empty or
+// containing {id}; store ids non-zero and distinct; region ids non-zero; every peer has
+// a non-zero store id and peer id and names a listed store; a non-zero leader store is
+// listed.
+
+//@ spec func templateOK(s string) bool = len(trim(s)) == 0 || contains(trim(s), "{id}")
+//@ spec func storeListed(f *File, id uint64) bool = exists s int :: 0 <= s && s < len(f.Stores) && f.Stores[s].StoreID == id
+//@ spec func storesOKTo(f *File, n int) bool = (forall i int :: 0 <= i && i < n && i < len(f.Stores) ==> f.Stores[i].StoreID != 0) && (forall i int, j int :: 0 <= i && i < j && j < n && j < len(f.Stores) ==> f.Stores[i].StoreID != f.Stores[j].StoreID)
+//@ spec func peersOKTo(f *File, r int, n int) bool = forall p int :: 0 <= p && p < n && p < len(f.Regions[r].Peers) ==> f.Regions[r].Peers[p].StoreID != 0 && f.Regions[r].Peers[p].PeerID != 0 && storeListed(f, f.Regions[r].Peers[p].StoreID)
+//@ spec func regionOK(f *File, r int) bool = f.Regions[r].ID != 0 && (f.Regions[r].LeaderStoreID == 0 || storeListed(f, f.Regions[r].LeaderStoreID)) && peersOKTo(f, r, len(f.Regions[r].Peers))
+//@ spec func regionsOKTo(f *File, n int) bool = forall r int :: 0 <= r && r < n && r < len(f.Regions) ==> regionOK(f, r)
+//@ spec func wellFormed(f *File) bool = f != nil && templateOK(f.StoreWorkDirTemplate) && templateOK(f.StoreDockerWorkDirTemplate) && storesOKTo(f, len(f.Stores)) && regionsOKTo(f, len(f.Regions))
+// storeIDs holds exactly the ids of the stores seen so far
+//@ spec func idsAre(f *File, m map[uint64]struct{}, n int) bool = forall id uint64 :: has(m, id) <==> (exists s int :: 0 <= s && s < n && s < len(f.Stores) && f.Stores[s].StoreID == id)
+
+//@ func (*File).Validate
+//@   property C38
+//@   ensures [nil-implies-wellformed] result == nil ==> old(wellFormed(f))
+//@   ensures [wellformed-implies-nil] old(wellFormed(f)) ==> result == nil
+//@   loop 1 invariant [stores] f != nil && templateOK(f.StoreWorkDirTemplate) && templateOK(f.StoreDockerWorkDirTemplate) && storesOKTo(f, rangeindex#1 + 1) && idsAre(f, storeIDs, rangeindex#1 + 1)
+//@   loop 2 invariant [regions] f != nil && templateOK(f.StoreWorkDirTemplate) && templateOK(f.StoreDockerWorkDirTemplate) && storesOKTo(f, len(f.Stores)) && idsAre(f, storeIDs, len(f.Stores)) && regionsOKTo(f, rangeindex#2 + 1)
+//@   loop 3 invariant [peers] f != nil && templateOK(f.StoreWorkDirTemplate) && templateOK(f.StoreDockerWorkDirTemplate) && storesOKTo(f, len(f.Stores)) && idsAre(f, storeIDs, len(f.Stores)) && regionsOKTo(f, rangeindex#2) && 0 <= rangeindex#2 && rangeindex#2 < len(f.Regions) && f.Regions[rangeindex#2].ID != 0 && (f.Regions[rangeindex#2].LeaderStoreID == 0 || storeListed(f, f.Regions[rangeindex#2].LeaderStoreID)) && peersOKTo(f, rangeindex#2, rangeindex#3 + 1)
